@@ -137,6 +137,12 @@ pub enum DetCase {
 
 pub struct Determinism;
 
+/// a run of the binary with a 60 s limit; a run that does not finish is not judged here (termination
+/// is decided without a clock by part fixpoint), the case is skipped
+fn run60(bin: &std::path::Path, args: &[&str], stdin: Option<&str>) -> cli::RunResult {
+    cli::run_env(bin, args, stdin, &[], std::time::Duration::from_secs(60))
+}
+
 fn det_cfg() -> ga::AspCfg {
     ga::AspCfg {
         preds: vec![("p".into(), 1), ("q".into(), 1), ("r".into(), 2), ("s".into(), 0), ("t".into(), 1), ("u".into(), 3)],
@@ -249,7 +255,11 @@ impl Check for Determinism {
                     }
                     args.extend(files.iter().cloned());
                     let argv: Vec<&str> = args.iter().map(|s| s.as_str()).collect();
-                    let r = cli::run(&bin, &argv, None);
+                    let r = run60(&bin, &argv, None);
+                    if r.timed_out {
+                        let _ = std::fs::remove_dir_all(&dir);
+                        return Outcome::skip("a run did not finish within 60 s (termination is decided by part fixpoint)");
+                    }
                     let outs = out.to_string_lossy().to_string();
                     streams.push((r.stdout.replace(&outs, "OUT"), r.stderr.replace(&outs, "OUT")));
                     snapshots.push((r.code, cli::snapshot_dir(&out)));
@@ -298,18 +308,18 @@ impl Check for Determinism {
                 for _ in 0..3 {
                     let r = match t {
                         Transform::TauStar | Transform::Natural | Transform::Mu => {
-                            cli::run(&bin, &["translate", "--with", &t.name()], Some(&text))
+                            run60(&bin, &["translate", "--with", &t.name()], Some(&text))
                         }
                         Transform::Gamma | Transform::Completion | Transform::Simplify(..) => {
                             // these commands read a theory: feed them the tau* theory
-                            let first = cli::run(&bin, &["translate", "--with", "tau-star"], Some(&text));
+                            let first = run60(&bin, &["translate", "--with", "tau-star"], Some(&text));
                             if first.code != Some(0) {
                                 return Outcome::skip("tau-star failed");
                             }
                             match t {
-                                Transform::Gamma => cli::run(&bin, &["translate", "--with", "gamma"], Some(&first.stdout)),
+                                Transform::Gamma => run60(&bin, &["translate", "--with", "gamma"], Some(&first.stdout)),
                                 Transform::Completion => {
-                                    cli::run(&bin, &["translate", "--with", "completion"], Some(&first.stdout))
+                                    run60(&bin, &["translate", "--with", "completion"], Some(&first.stdout))
                                 }
                                 Transform::Simplify(pf, st) => cli::run(
                                     &bin,
@@ -320,6 +330,9 @@ impl Check for Determinism {
                             }
                         }
                     };
+                    if r.timed_out {
+                        return Outcome::skip("a run did not finish within 60 s (termination is decided by part fixpoint)");
+                    }
                     outputs.push((r.code, r.stdout));
                 }
                 if outputs.iter().any(|o| *o != outputs[0]) {
@@ -367,7 +380,11 @@ impl Check for Determinism {
                     args.push(pa.to_string_lossy().to_string());
                     args.push(pb.to_string_lossy().to_string());
                     let argv: Vec<&str> = args.iter().map(|s| s.as_str()).collect();
-                    let r = cli::run(&bin, &argv, None);
+                    let r = run60(&bin, &argv, None);
+                    if r.timed_out {
+                        let _ = std::fs::remove_dir_all(&dir);
+                        return Outcome::skip("a run did not finish within 60 s (termination is decided by part fixpoint)");
+                    }
                     let outs = out.to_string_lossy().to_string();
                     streams.push((r.stdout.replace(&outs, "OUT"), r.stderr.replace(&outs, "OUT")));
                     snapshots.push((r.code, cli::snapshot_dir(&out)));
